@@ -24,7 +24,7 @@ import (
 	"github.com/itchyny/gojq"
 )
 
-func main() { Register("c07", runC07); Main() }
+func main() { Register("c07", runC07); Register("c07vm", runC07vm); Main() }
 
 // ---- counting context ----------------------------------------------------------------------
 
